@@ -4,7 +4,7 @@ package seqhash
 
 // C04: seqhash is invariant under rotation, strand, case and RNA/DNA spelling.
 //
-// verif:bound C04 rotation clause: sequences over the whole accepted alphabet of the type (both cases), length 1..4, every rotation offset, both strandedness values, all three types; over ACGT additionally length 5..6 (quick) / 5..7 (thorough)
+// verif:bound C04 rotation clause: sequences over the whole accepted alphabet of the type (both cases), length 1..3 (quick) / 1..4 (thorough), every rotation offset, both strandedness values, all three types; over ACGT additionally length 5 (quick) / 5..7 (thorough)
 // verif:bound C04 long-molecule clause: circular DNA of 33001 (quick) / 4099, 33001, 65537, 70001 (thorough) letters with two symbolic letters, rotation offsets 1, n/2, n-3
 // verif:bound C04 strand clause: sequences over the 15 IUPAC codes (plus U under RNA), both cases, length 1..3 (quick) / 1..4 (thorough), circular and linear
 // verif:bound C04 case clause: length 1..3 (quick) / 1..4 (thorough); RNA/DNA clause: length 1..4 (quick) / 1..5 (thorough); all four flag combinations
@@ -18,7 +18,7 @@ const c04Iupac = "ACGTRYSWKMBDHVNacgtryswkmbdhvn"
 const c04IupacU = "ACGTRYSWKMBDHVNUacgtryswkmbdhvnu"
 
 func Harness_C04_Rotation() {
-	n := 1 + vChoice(4)
+	n := 1 + vChoice(vTier(3, 4))
 	k := vChoice(n)
 	ti := vChoice(3)
 	ds := vChoice(2) == 1
@@ -69,7 +69,7 @@ func Harness_C04_AfterOtherCalls() {
 
 // longer circular sequences over the four bases (failure-function chains need length)
 func Harness_C04_RotationACGT() {
-	n := 5 + vChoice(vTier(2, 3))
+	n := 5 + vChoice(vTier(1, 3))
 	k := vChoice(n)
 	ds := vChoice(2) == 1
 	s := vBytes(n, "ACGT")
